@@ -49,6 +49,9 @@ def _on_line(code, line):
             d = math.exp(r.uniform(math.log(_S["lo"]), math.log(_S["hi"])))
         _S["spent"] += d
         _S["n"] += 1
+        cb = _S.get("on_inject")
+        if cb is not None:
+            cb(code.co_name, line, d)
         _sleep(d)
     return None
 
@@ -57,10 +60,10 @@ _sleep = time.sleep
 
 
 def install(seed, p=0.04, files=("pyramid.py", "par_util.py", "multi_tan.py", "multi_wcs.py"), lo=0.002, hi=0.12, budget=3.0, hot=4000,
-            long_p=0.0, long=(0.0, 0.0)):
+            long_p=0.0, long=(0.0, 0.0), on_inject=None):
     """start injecting; inherited across fork (state is re-seeded per process)"""
     mon = sys.monitoring
-    _S.update(on=True, files=tuple(files), p=p, lo=lo, hi=hi, budget=budget, hot=hot, seed=seed, pid=None, counts={}, long_p=long_p, long=long)
+    _S.update(on=True, files=tuple(files), p=p, lo=lo, hi=hi, budget=budget, hot=hot, seed=seed, pid=None, counts={}, long_p=long_p, long=long, on_inject=on_inject)
     if mon.get_tool(TOOL) is None:
         mon.use_tool_id(TOOL, "verif-sched")
     mon.register_callback(TOOL, mon.events.LINE, _on_line)
